@@ -19,6 +19,7 @@ class E(enum.Enum):
 class IE(enum.IntEnum):
     P = 1
 NT = NewType("NT", int)
+NT2 = NewType("NT2", NT)
 class TD(TypedDict):
     a: int
     b: NotRequired[str]
@@ -77,6 +78,8 @@ def universe(tier):
             '(1, "a", 1.5)', "(1, 2, 3)", '("a", "b", "c")', '(1, "a", "b", 1.5)', "[[1]]", '[(1, "a")]', "([1],)", '{"a": [1]}',
             "(E.X,)", "[E.X, E.Y]", "(A(),)", "[B()]", "(IE.P,)", "[FS(1.5)]", "(IS(2), 1)",
             # containers whose members are equal (and hash equal) but of different types: (True,) == (1,), [1.0] == [1]
+            # dicts with a non-string key next to the declared ones (not members of any TypedDict), the class of None
+            '{"a": 1, 3: 4}', "{3: 4}", "type(None)",
             "[(True,), (1,)]", "[(1,), (True,)]", "((1.5,), (1,), (True,))", '[{"a": 1}, {"a": True}]']
     if tier == "thorough":
         for t in itertools.product(CORE, repeat=3):
